@@ -41,7 +41,7 @@ import WcModel.Model.Comp
         part of `Glob.__init__`, for every flags / limit / pattern list / exclude list / brace table:
         the same exception after the same number of bracex pulls, or twin lists; the loops are
         NATURAL in the type of a compiled pattern (`Proofs/BytesWalkLoop.lean`).  The normaliser is
-        a common input (`norm_type_dependent`, `norm_unix_noraw`).
+        a common input (`norm_D38_fixed_witness`, `norm_unix_noraw`).
    4. WCMATCH and the helper regexes: `wcmatch_type_blind` (the K7 model asks its decision tables only
         about paths made of names of the tree; tables that agree on Latin-1 paths give the same
         run), `wcmatch_tables_of_twins`, `walker_helper_twins`.
@@ -260,11 +260,9 @@ theorem latin1_tree_needed :
   `extOf false r`, differ in the per-pattern compiler — twins, by `bytes_str_winDrive` — and in the
   NORMALISER `util.norm_pattern`, which is handed to both worlds as one function `nm` here: it is
   type-dependent ON PURPOSE under RAWCHARS (`\u`, `\U`, `\N{…}` are str escapes, an octal value
-  above 0o377 wraps in bytes) and, under Windows rules, even without RAWCHARS: the str normaliser
-  steps over `\N{…}` as one token and the bytes one rewrites a `\/` inside it
-  (`norm_type_dependent`; replayed on the real code: `util.norm_pattern(r'\N{\/}', True, False)`
-  returns the text unchanged, the bytes call returns `\N{` + four backslashes + `}`), and that IS
-  observable at the API (`norm_type_dependent_observable`: a finding).  Under Unix rules without
+  above 0o377 wraps in bytes).  Under Windows rules it was type-dependent even WITHOUT RAWCHARS — the str normaliser
+  stepped over `\N{…}` as one token and the bytes one rewrote a `\/` inside it, observable at the API: D38, found here, repaired by
+  cbce5f1 (`norm_D38_fixed_witness`, `norm_D38_fixed_observable`).  Under Unix rules without
   RAWCHARS the normaliser is the identity for both types
   (`norm_unix_noraw`). -/
 
@@ -338,20 +336,19 @@ theorem norm_unix_noraw (b : Bool) (fl : Flags) (names : List (List Char × Opti
     Norm.normPattern (Driver.Lists.normCfgOf b fl names) p = .ok p := by
   simp [Norm.normPattern, Driver.Lists.normCfgOf, h1, h2]
 
-/-- the normaliser does depend on the type, even without RAWCHARS (Windows rules): `\N{\/}` -/
-theorem norm_type_dependent :
+/-- D38 (found by this proof, repaired by the `fix:` commit cbce5f1): without RAWCHARS the normaliser used to depend on the type under
+    Windows rules — `RE_NORM` has a `\N{…}` token, `RE_BNORM` has not, and the str token was returned unchanged, so a `\/` inside the
+    braces was rewritten for bytes only (`norm_type_dependent`, at the time).  Both types give the same text now. -/
+theorem norm_D38_fixed_witness :
     Norm.normPattern { isBytes := true, normalize := true, raw := false } "\\N{\\/}".toList = .ok "\\N{\\\\\\\\}".toList ∧
-    Norm.normPattern { isBytes := false, normalize := true, raw := false } "\\N{\\/}".toList = .ok "\\N{\\/}".toList := by
+    Norm.normPattern { isBytes := false, normalize := true, raw := false } "\\N{\\/}".toList = .ok "\\N{\\\\\\\\}".toList := by
   decide +kernel
 
-/-- **the type-dependence of the normaliser is OBSERVABLE** (a difference between bytes and str on
-    ASCII input in the real library, replayed: `fnmatch.fnmatch('N{/}', r'\N{\/}', flags=FORCEWIN)` is
-    `True` and `fnmatch.fnmatch(b'N{/}', rb'\N{\/}', flags=FORCEWIN)` is `False`; for the name `N{//}`
-    the answers are the other way round; `translate` gives `N\{[\\/]\}` / `N\{[\\/][\\/]\}`).
-    `RE_NORM` has the alternative `\\N\{[^}]*?\}`, which swallows a `\/` inside the braces even
-    when RAWCHARS is off; `RE_BNORM` has no such alternative and rewrites it to two separators.
-    The model says the same, end to end (normalise, parse, match): -/
-theorem norm_type_dependent_observable :
+/-- … and end to end (normalise, parse, match): the difference that WAS observable in the real library
+    (`fnmatch.fnmatch('N{/}', r'\N{\/}', flags=FORCEWIN)` True for str, False for bytes; the other way round for `N{//}`)
+    is gone on the model as it is gone on the code (replayed): both types reject `N{/}` and accept `N{//}` (an escaped separator under
+    Windows rules in fnmatch mode is the doubled-backslash text, KF-D21's neighbourhood). -/
+theorem norm_D38_fixed_observable :
     let run (b : Bool) (n : String) : Option Bool :=
       match Norm.normPattern (Driver.Lists.normCfgOf b (Flags.ofNat Gen.FFORCEWIN) []) "\\N{\\/}".toList with
       | .error _ => none
@@ -360,7 +357,7 @@ theorem norm_type_dependent_observable :
         | .error _ => none
         | .ok parsed => parsed.toRe.map (fun r => r.fullmatch n.toList)
     (run true "N{/}", run false "N{/}", run true "N{//}", run false "N{//}") =
-      (some false, some true, some true, some false) := by decide +kernel
+      (some false, some false, some true, some true) := by decide +kernel
 
 /-! ### 4. WcMatch, and the helper regexes of the walkers
 
